@@ -136,7 +136,11 @@ func VerifH04() {
 	}
 	// a pre-state with history: optionally a committed value, optionally a transaction that has
 	// already written one or both keys (its records are durable but uncommitted)
-	if nd.Choice("pre-committed", 2) == 1 {
+	switch nd.Choice("pre-committed", 3) {
+	case 1:
+		nd.Assert(w.doSet(0, "a", w.freshVal(), 0) == nil, "H04.pre")
+	case 2: // two versions: the durable sequence numbers are ahead of a fresh process's counter
+		nd.Assert(w.doSet(0, "a", w.freshVal(), 0) == nil, "H04.pre")
 		nd.Assert(w.doSet(0, "a", w.freshVal(), 0) == nil, "H04.pre")
 	}
 	switch nd.Choice("pre-tx", 3) {
@@ -147,6 +151,13 @@ func VerifH04() {
 		t := w.begin(a.levels[nd.Choice("level", 2)])
 		nd.Assert(w.doSet(t, "a", w.freshVal(), 0) == nil, "H04.pre-tx")
 		nd.Assert(w.doSet(t, "b", w.freshVal(), 0) == nil, "H04.pre-tx")
+	}
+	// the workload may run in the process that built the pre-state, or in a later one
+	if len(w.openTxs()) == 0 && nd.Choice("workload-in-a-later-process", 2) == 1 {
+		nd.Assert(w.d.Close() == nil, "H04.pre-close")
+		newProcess()
+		w.d, w.c = openSeq(w.cfg)
+		nd.Reach("H04.later-process")
 	}
 	crashed := nd.RunCrashable(func() {
 		for i := 0; i < k; i++ {
